@@ -4,7 +4,28 @@
     Gen/CodataJson2014.v, Gen/Aliases.v are regenerated from /repo on every run.
     Everything written by hand in THIS file (documented formulas, documented magnitudes, the attribute
     spelling rule, the list of extra names) comes from the docstring/comment block of context.py, not from
-    its code. *)
+    its code.
+
+    CLAUSE MAP (statement of C02 in properties.jsonl -> theorems here; "corr" = correspondence/oracle only)
+    1. every published constant of either set is retrievable by its NIST name in any letter case: C02_table_is_nist (every
+         row of codata-2014/2018.txt, ALL spellings equal up to case), C02_table_is_srd121_json, C02_get_case_insensitive,
+         C02_get_upper_lower (for ALL strings); nothing else is offered: C02_no_undocumented_keys.
+    2. ... and as the corresponding attribute: C02_table_is_nist (last conjunct), C02_mangle_is_documented (the table-driven
+         translate IS the documented spelling rule, for ALL strings), C02_attr_is_mangled_label (every stored constant).
+    3. Decimal value, unit (up to exponent markup), label, uncertainty string identical to NIST's table: C02_table_is_nist,
+         C02_table_is_srd121_json (units exactly).
+    4. the float form is the nearest double: C02_float_is_nearest (every value of both sets, incl. aliases and legacy names),
+         C02_nearest64_ok_meaning (what "nearest" means, for all inputs); float(Decimal) of CPython itself: corr, bit for bit.
+    5. each alias equals its documented arithmetic definition on the same set's constants: C02_alias_definitions (27 aliases,
+         both sets, digit for digit in 28-digit Decimal arithmetic), C02_alias_power_of_ten_sanity (exact rationals),
+         C02_alias_documented_magnitudes, C02_alias_lists_complete, C02_calorie_joule, C02_derived_2018_definitions (3 legacy
+         constants); the Decimal arithmetic itself: C02_decimal_* (correct rounding for ALL operands).
+    6. in the 2018 set the 2014 names of renamed constants remain retrievable with the 2018 values: C02_renames_2018 (26),
+         C02_legacy_names_retrievable, C02_legacy_spelling, C02_legacy_tau_attribute.
+    7. quantifier: get(), get(return_tuple), attribute, pc[...]: wave 3 C02_routes_agree (the four routes deliver the same
+         Datum / the float of the same Decimal); both contexts: every theorem is for all [c]; the default singleton and the
+         default constructor argument are CODATA2014: pinned verbatim by the translator (fail-closed) and corr (objects
+         "default" and "noarg").  __init__ and get() are pinned verbatim by the translator; the model transcribes them. *)
 From Coq Require Import ZArith List String Ascii Bool QArith Qabs Qpower.
 Require Import QV.Common.Outcome QV.Common.DecC02 QV.Common.StrC02.
 Require Import QV.Gen.Codata2014 QV.Gen.Codata2018 QV.Gen.CodataRaw2014 QV.Gen.CodataRaw2018 QV.Gen.CodataJson2014 QV.Gen.Aliases.
@@ -74,6 +95,20 @@ Theorem C02_attr_is_mangled_label : forall c k d, In (k, d) (pc c) ->
   getattr c (mangle_by doc_char (d_label d)) = Ok (d_data d) /\ k = lower (d_label d).
 Proof.
   intros c k d H. rewrite <- C02_mangle_is_documented. split; [eapply attrs_cover; eassumption | eapply keys_are_lower_labels; eassumption].
+Qed.
+
+(** ** The four access routes agree: pc[lower name] is get(name, return_tuple=True); get(name) and the attribute spelled from the label are
+    the float of that same Decimal (C02_float_is_nearest says which float). *)
+Theorem C02_routes_agree : forall c s d, get c s = Ok d ->
+  getitem c (lower s) = Ok d /\ getattr c (mangle_by doc_char (d_label d)) = Ok (d_data d) /\ lower s = lower (d_label d).
+Proof.
+  intros c s d H. unfold get, getitem in *. destruct (pc_o c) as [l|] eqn:E; cbn [obind] in *; [|discriminate].
+  split; [exact H|].
+  destruct (od_get (lower s) l) as [d'|] eqn:G; [|discriminate]. injection H as ->.
+  assert (Hin : In (lower s, d) (pc c)).
+  { unfold pc. rewrite E. clear E. induction l as [|[k v] r IH]; cbn [od_get] in G; [discriminate|].
+    destruct (String.eqb (lower s) k) eqn:K; [apply String.eqb_eq in K; injection G as ->; subst; left; reflexivity | right; apply IH; exact G]. }
+  destruct (C02_attr_is_mangled_label c _ _ Hin) as [A B]. split; [exact A | exact B].
 Qed.
 
 (** ** Aliases.  Documented definitions (comment block "h 'hertz-joule relationship' ...", alias comments). *)
@@ -338,6 +373,7 @@ Print Assumptions C02_get_case_insensitive.
 Print Assumptions C02_get_upper_lower.
 Print Assumptions C02_mangle_is_documented.
 Print Assumptions C02_attr_is_mangled_label.
+Print Assumptions C02_routes_agree.
 Print Assumptions C02_alias_definitions.
 Print Assumptions C02_derived_2018_definitions.
 Print Assumptions C02_alias_power_of_ten_sanity.
